@@ -44,10 +44,12 @@ PINNED = {
     "C12": [("crates/jet1090/src/snapshot.rs", None), ("crates/jet1090/src/main.rs", r"async fn main"),
             ("crates/jet1090/src/verif_driver.rs", None), ("crates/jet1090/src/web.rs", r"pub async fn (all|icao24|track)")],
     "C13": [(M, r"decode_id13|gray2alt|AC13Field|IdentityCode"), (D + "bds/bds05.rs", r"decode_ac12|struct AirbornePosition|read_altitude|fn ")],
-    "C14": [("crates/rs1090/src/data/tail.rs", None), ("crates/rs1090/src/data/patterns.rs", None)],
+    "C14": [("crates/rs1090/src/data/tail.rs", None), ("crates/rs1090/src/data/patterns.rs", None),
+            ("crates/rs1090/data/patterns.json", pinlib.FILE)],   # audit e F4: the table every side of the check reads
     "C15": [(D + "flarm.rs", None)],
     "C16": [("crates/jet1090/src/source.rs", None), (C, r"FromStr for Position|struct Position"),
-            ("crates/rs1090/src/data/airports.rs", None)],
+            ("crates/rs1090/src/data/airports.rs", None),
+            ("crates/rs1090/data/airports.json", pinlib.FILE)],   # audit e F1: the data the oracle and the model input come from
     "C17": [("crates/jet1090/src/main.rs", r"fn update|impl Jet1090|struct Jet1090|enum SortKey"),
             ("crates/jet1090/src/table.rs", r"fn build_table"), ("crates/jet1090/src/verif_driver.rs", None),
             ("crates/jet1090/src/tui.rs", None)],
